@@ -1,3 +1,4 @@
+import SamlModel.Lemmas.Builders
 import SamlModel.Model.Metadata
 import SamlModel.Props.FnLemmas
 import SamlModel.Props.SsoLemmas
@@ -161,10 +162,27 @@ theorem C11_flag_verbatim (o : Ora) (c : Cfg) (i : In) (d : Doc) (h : metadata o
     FnLemmas.xsTrue d.wantAuthnRequestsSigned = FnLemmas.xsTrue c.wantSigned := by
   rw [(C11_metadata_locations o c i d h).2.2.2.2]
 
+/-- **endpoint defaults are the generated ones**: `endpointConfigToEndpoints` as regenerated from identityprovider.go
+    never panics; without configuration it yields the default paths the metadata model's `Endpoints` carries, and a
+    configured endpoint replaces exactly its own default -/
+theorem C11_endpoint_defaults (o : Ora) :
+    Gen.endpointConfigToEndpoints o none = .ok (some {
+      certificateEndpoint := (default : Metadata.Endpoints).certificate, callbackEndpoint := (default : Metadata.Endpoints).callback,
+      singleSignOnEndpoint := (default : Metadata.Endpoints).singleSignOn, singleLogoutEndpoint := (default : Metadata.Endpoints).singleLogout,
+      attributeEndpoint := (default : Metadata.Endpoints).attributeEp }) ∧
+    ∀ c : Gen.provider_EndpointConfig, ∃ e, Gen.endpointConfigToEndpoints o (some c) = .ok (some e) ∧
+      e.singleSignOnEndpoint = c.SingleSignOn.getD { path := "SSO" } ∧ e.singleLogoutEndpoint = c.SingleLogOut.getD { path := "SLO" } ∧
+      e.attributeEndpoint = c.Attribute.getD { path := "attribute" } ∧ e.certificateEndpoint = c.Certificate.getD { path := "certificate" } ∧
+      e.callbackEndpoint = c.Callback.getD { path := "login" } := by
+  constructor
+  · rw [Builders.endpointConfigToEndpoints_eq]; rfl
+  · intro c
+    exact ⟨_, Builders.endpointConfigToEndpoints_eq o (some c), by simp, by simp, by simp, by simp, by simp⟩
+
 theorem C11_source_current :
     FactsUtil.sameHashes ["provider.IdentityProviderConfig.getMetadata", "provider.Config.getMetadata", "provider.Provider.GetMetadata",
       "provider.Provider.metadataHandle", "provider.IdentityProvider.GetMetadata", "provider.IdentityProvider.GetEntityID", "provider.IdentityProvider.GetRoutes",
-      "provider.CreateRouter", "provider.NewProvider", "provider.NewIdentityProvider", "provider.endpointConfigToEndpoints",
+      "provider.CreateRouter", "provider.NewProvider", "provider.NewIdentityProvider",
       "provider.IdentityProvider.certificateHandleFunc", "provider.intercept", "provider.IssuerInterceptor.setIssuerCtx"] = true := by decide
 
 end C11
